@@ -15,11 +15,14 @@ RULE = ('message sequences from an independent RFC 7230 serializer (harness/stre
 	'non-trivial = distinct message sequence with at least one body or repeated field')
 EXHAUSTIVE = {'quick': False, 'thorough': False}
 TRUSTED = pc.TRUSTED_COMMON + ['harness/streams.py gen_wf: the independent serializer and its ground truth']
-ASSUMPTIONS = ['responses whose reason phrase is empty are refused by the client (known finding D48) and excluded from the comparison', 'requests that carry neither Content-Length nor chunked framing are compared only when nothing follows them in the same parse() call (known finding D13)']
+ASSUMPTIONS = ['GET/HEAD/TRACE requests that carry a payload are refused by policy (known finding D57) and excluded from the comparison', 'responses whose reason phrase is empty are refused by the client (known finding D48) and excluded from the comparison', 'requests that carry neither Content-Length nor chunked framing are compared only when nothing follows them in the same parse() call (known finding D13)']
 D13 = 'D13-411-buffer-peek'
 D48 = 'D48-empty-reason-phrase'
+D57 = 'D57-payload-on-get-head-trace'
+_W57 = b'GET / HTTP/1.1\r\nHost: h\r\nContent-Length: 2\r\n\r\nab'
 _W48 = b'HTTP/1.1 204 \r\nX: y\r\n\r\n'
-WITNESSES = [(D48, {'k': 'wf', 'kind': 'client', 'gt': [{'version': [1, 1], 'status': 204, 'reason': '', 'fields': {'x': [b'y'.hex()]}, 'body': '', 'framed': True}], 'sers': [_W48.hex()], 'trunc': [5]})]
+WITNESSES = [(D48, {'k': 'wf', 'kind': 'client', 'gt': [{'version': [1, 1], 'status': 204, 'reason': '', 'fields': {'x': [b'y'.hex()]}, 'body': '', 'framed': True}], 'sers': [_W48.hex()], 'trunc': [5]}),
+	(D57, {'k': 'wf', 'kind': 'server', 'gt': [{'version': [1, 1], 'method': 'GET', 'path': '/', 'query': '', 'host': 'h', 'target': b'/'.hex(), 'fields': {'host': [b'h'.hex()], 'content-length': [b'2'.hex()]}, 'body': b'ab'.hex(), 'framed': True}], 'sers': [_W57.hex()], 'trunc': [5]})]
 
 
 def gen_cases(rng, tier):
@@ -75,7 +78,8 @@ def _match(kind, gt, m):
 	if m['body'] != gt['body']:
 		return 'body %s != payload %s' % (m['body'][:60], gt['body'][:60])
 	h = {bytes.fromhex(k).decode('latin-1').lower(): bytes.fromhex(v) for k, v in m['hdrs']}
-	exp = {k: b', '.join(bytes.fromhex(x) for x in v) for k, v in gt['fields'].items()}
+	# repeated fields: one field whose value is the list joined by the separator of that field (Cookie: '; ')
+	exp = {k: (b'; ' if k == 'cookie' else b', ').join(bytes.fromhex(x) for x in v) for k, v in gt['fields'].items()}
 	exp.pop('transfer-encoding', None)
 	exp['content-length'] = b'%d' % (len(gt['body']) // 2)
 	if h != exp:
@@ -145,6 +149,9 @@ def classify(c, o, fail):
 	if m and c['kind'] == 'client' and int(m.group(1)) < len(c['gt']) and c['gt'][int(m.group(1))].get('reason') == '':
 		# the refused message is the one whose status line ends with the SP after the code
 		return D48
+	if m and c['kind'] == 'server' and int(m.group(1)) < len(c['gt']) and c['gt'][int(m.group(1))].get('method') in ('GET', 'HEAD', 'TRACE') and c['gt'][int(m.group(1))]['body']:
+		# the refused message is a GET/HEAD/TRACE request that carries a payload
+		return D57
 	return None
 
 
